@@ -28,13 +28,24 @@ Proved here - the lemmas the accept / reject simulation rests on:
   and tail of the working tree is plain or a string `_make_diff_tags` emitted (`FInv`, kept by all twelve handlers),
   `finalize` succeeds (for every sufficiently large fuel) and the tree handed to `render` contains no placeholder
   character (`C08_output_placeholder_free`).
-Not proved: the composition at tree level (accept (format L S) = patch L S, reject (format L S) = L) - it
+* the accept simulation at tree level for scripts without moves (`Proofs/Acc1.lean` ... `Acc4.lean`): the accepted view
+  of the working tree (`acc`: nodes marked deleted dropped, `diff:` attributes removed, marked texts read with the insert
+  wrappers opened and the delete wrappers dropped) is what the patcher has at every step - `_xpath` resolves a path that
+  is stepwise unique on the accepted view (every `getpath` path is: `C09_generated_paths_stepwise_unique`) to the node
+  whose accepted view the patcher addresses; marking a node deleted is removing it; inserting at
+  `_get_real_insert_position` is inserting at the position; the attribute, rename and text handlers change the accepted
+  payload exactly as the patcher does (`C09_accept_simulation_no_moves`).  The handlers' success is part of the
+  conclusion (totality of the formatter on such scripts, C08).
+Not proved: moves in the simulation, the accepted view after `finalize` (wrappers as elements; text level only:
+`C09_text_update_accept`), the composition at tree level (accept (format L S) = patch L S, reject (format L S) = L) - it
 is decided on every run by the projection oracles on the real output; and it is *false* of
 the code for the two recorded findings (text after a comment, tail of a deleted / moved node).
 -/
 import XmlDiffModel.Proofs.XmlFormat
 import XmlDiffModel.Proofs.TextMark2
 import XmlDiffModel.Proofs.FmtInv
+import XmlDiffModel.Proofs.Acc4
+import XmlDiffModel.Proofs.Changes
 
 namespace XmlDiffModel
 open Tree
@@ -122,6 +133,66 @@ theorem C08_output_placeholder_free (qn : QName) (ft : List Str) (L : Tree) (nx 
   refine format_placeholder_free qn script _ s' inv (fun a ha => ?_) h
   cases a <;> try trivial
   case updateTextIn n t => exact hact _ ha n t rfl
+
+open Acc in
+/-- Every path the differ writes (`utils.getpath`) is stepwise unique: each step selects exactly one node, and the
+last one is the node addressed. -/
+theorem C09_generated_paths_stepwise_unique (qn : QName) (t : Tree) (i : Nat) (p : Path)
+    (h : pathStr qn t i = .ok p) : ∃ sub, Tree.find i t = some sub ∧ SU qn p [t] sub :=
+  su_of_pathStr qn t i p h
+
+open Acc TextMark in
+/-- **Accepting every change gives the patched document** - scripts without moves, formatter without text tags and
+without `use_replace`, tree before `finalize`.  `L` is the left document as the formatter receives it (comments
+removed; no `diff:` attributes, no private-use characters, distinct ids below `nx`).  Assumed of the script: no move
+and no comment action, attribute names outside the `diff:` namespace, new texts without private-use characters and
+never the empty string, every path stepwise unique on the patcher's tree at that point (`SUScript`; true of
+generated paths), and of the engine: each answer consumed by a text update is a list of equal / insert / delete
+segments whose accepted text is the new text (`OracleOK`; C16).  Then: if the patcher (`runUniq`) accepts the script
+on `L` and yields `p'`, every handler of the formatter succeeds, and the accepted view of the tree they leave
+- nodes marked deleted dropped, `diff:` attributes removed, marked texts read with `accChars` - is `p'.tree`. -/
+theorem C09_accept_simulation_no_moves (qn : QName) (ft : List Str) (L : Tree) (nx : Nat) (segs : List (List Seg))
+    (w : Bool) (script : List Action) (p' : PState)
+    (hclean : CleanT L) (hn : (Tree.ids L).Nodup) (hfresh : ∀ i ∈ Tree.ids L, i < nx)
+    (hst : ∀ a ∈ script, Simulated a ∧ PlainNames a ∧ TextsOK a)
+    (hsu : SUScript qn ⟨L, nx⟩ script)
+    (hor : OracleOK qn { tree := L, next := nx, ph := phInit [] ft, segs := segs, useReplace := false, wsText := w } script)
+    (hp : runUniq qn ⟨L, nx⟩ script = .ok p') :
+    ∃ s', runFmt qn { tree := L, next := nx, ph := phInit [] ft, segs := segs, useReplace := false, wsText := w }
+        script = .ok s' ∧ acc (cln accS) s'.tree = p'.tree := by
+  have hb : Base (phInit [] ft) := by
+    have := base_history [] ft [] (by
+      show (phInit [] ft).counter < 0x110000
+      have : (phInit [] ft).counter = phStart + 6 := rfl
+      rw [this]; decide)
+    exact this
+  have hacc : acc (cln accS) L = L := acc_clean L hclean
+  have hfok : FOK { tree := L, next := nx, ph := phInit [] ft, segs := segs, useReplace := false, wsText := w } :=
+    ⟨⟨hn, hfresh, isGhost_of_clean L hclean⟩, hb, rfl⟩
+  obtain ⟨s', h1, h2, _⟩ := run_sim_all qn script _ hfok hst (by simpa [hacc] using hsu) hor p'
+    (by simpa [hacc] using hp)
+  exact ⟨s', h1, h2⟩
+
+private def exE (t : String) (tx : Option String) : Payload :=
+  ⟨.elem, t.toList, [("k".toList, "1".toList)], tx.map String.toList, none⟩
+private def exL : Tree := .node 0 (exE "a" none) [.node 1 (exE "b" (some "old")) [], .node 2 (exE "c" none) []]
+private def exP (l : List (String × Nat)) : Path := l.map (fun x => ⟨.name x.1.toList, some x.2⟩)
+private def exScript : List Action :=
+  [.insertNode (exP [("a", 1)]) "d".toList 1, .deleteNode (exP [("a", 1), ("c", 1)]),
+   .updateAttrib (exP [("a", 1), ("b", 1)]) "k".toList "2".toList,
+   .updateTextIn (exP [("a", 1), ("b", 1)]) (some "new".toList), .renameNode (exP [("a", 1), ("d", 1)]) "x".toList]
+private def exS0 : FState :=
+  ⟨exL, 20, phInit [] [], [[⟨.del, "old".toList, []⟩, ⟨.ins, "new".toList, []⟩]], false, false⟩
+
+/-- The conclusion of `C09_accept_simulation_no_moves` on a concrete script (insert, delete, attribute update, text
+update, rename): the patcher accepts it, the formatter accepts it, and the accepted view has the ids and the
+payloads, in document order, of the patched tree. -/
+example :
+    (runFmt QName.plain exS0 exScript).toOption.map
+        (fun s => (Tree.ids (Acc.acc (Acc.cln Acc.accS) s.tree), C17.pls (Acc.acc (Acc.cln Acc.accS) s.tree))) =
+      (runUniq QName.plain ⟨exL, 20⟩ exScript).toOption.map (fun p => (Tree.ids p.tree, C17.pls p.tree)) ∧
+    (runUniq QName.plain ⟨exL, 20⟩ exScript).toOption.isSome = true := by
+  decide +kernel
 
 /-- Non-vacuity of `C08_output_placeholder_free`: the handlers accept a text update with a delete + insert answer. -/
 example :
